@@ -102,6 +102,7 @@ CLAIMS = {
              "overwriting a live one - equals the plain fold `spec` for EVERY vector length and EVERY converter, a Section variable with its "
              "own state that may modify the previous output), C08_success (one converter call per input, in order, nothing dropped or released), "
              "C08_no_fault, C08_length; C08_current ties the five code facts the proof needs to convert.rs through the translator. "
+             "C08_wrapper / C08_wrapper_refuses: the infallible wrapper convert_vec_in_place (the function instantiated with the empty error type, then unwrap; fact wrapper_delegates read from the source) is the same fold for every input, the empty one included, and refuses what the function refuses. "
              "Same allocation/capacity is the allocator's: observed by E4 (pointer, capacity, no release) on every successful case. "
              "E4 runs every script that matters up to the tier's length on 4 element pairs in dev and release against the model.",
         note=BASE_NOTE + "Full for the index logic; 'same allocation' partial (execution). catch_unwind/unwinding are trusted.",
@@ -143,7 +144,7 @@ CLAIMS = {
         text="Theorem C05 (conv_holds): for two consecutive variants with layout_ok and any record holding the previous one, each of the four generated "
              "conversion forms never faults, keeps every carried field with its value, stores every supplied added field with the supplied value (an added "
              "field may reuse a removed field's bytes: removed fields are read first), and hands back (and_out) or destroys once (otherwise) every removed "
-             "field with the value it had. C05_minus_plus: the lists Gen computes by merging the id-sorted variants have the required shape. Chains are the "
+             "field with the value it had. C05_minus_plus: the lists Gen computes by merging the id-sorted variants have the required shape. C05_chain_values: any chain of conversions (complete or uninit-then-filled) and writes ends with the closed-form values uchain_vals, read back by every accessor; C05_end_to_end: from a request history to the converted record; C05_vec_in_place / _forms / _merge / _then_drop / _fails / _fails_accounts / C05_vec_pipeline: convert_vec_in_place over a Vec of records with the generated conversion as converter (VecConv and Exec composed): any of the four conversion forms, a converter merging elements into the previous output, success, failure with global accounting, several variants in a row. Chains are the "
              "composition: C05_holds (complete forms map `holds P` to `holds Q`), C05_uninit_then_fill (uninit forms, then one write per field left uninitialised). "
              "E1 ties the layout, E2 statement order; E3 executes the 4 forms and 4 chain patterns per definition.",
         note=BASE_NOTE + "PARTIAL as C04.",
@@ -154,14 +155,14 @@ CLAIMS = {
         text="Theorems C06_drop (the generated Drop destroys a permutation of the droppable values the record holds: each exactly once), "
              "C06_conversion_drops, with C04_new / C04_unpack / C04_set_frame / C05 stating for every other operation which values are moved in, handed "
              "back or destroyed. C06_lifecycle_drop / _unpack: ANY sequence of reads and writes on one variant, then Drop / unpack; C06_whole_life: any number of "
-             "conversions with any reads and writes in between, then Drop - destroyed plus handed back equals entered, as multisets, and nothing faults. E3 runs every scenario under a ledger of live instances (double destruction and leaks are reported per operation "
+             "conversions with any reads and writes in between, then Drop - destroyed plus handed back equals entered, as multisets, and nothing faults. C06_whole_life_uninit adds the uninit conversion forms followed by the writes of the fields left out as stages; C06_life_from_new / _from_new_uninit start at the constructors; C06_life_from_history derives every layout hypothesis from a request history and takes the record through ALL the variants the builder produced. E3 runs every scenario under a ledger of live instances (double destruction and leaks are reported per operation "
              "sequence), plus the per-byte ownership shadow of the runtime hooks.",
         note=BASE_NOTE + "PARTIAL as C04 (the whole-life theorem covers the complete conversion forms).",
         ref="DESIGN.md section 4 C06"),
     "C07": dict(
         engine="E1 bdiff + E2 gendump + E3 execgen (+ runtime hooks)",
         technique="Coq proofs that no generated operation reaches a Fault of the abstract machine + hooks (bounds, alignment, ownership shadow) + address checks in real executions",
-        text="Theorems C07_no_fault (with C05) and C07_whole_life_no_fault (a whole life across variants): every access the generated operations make is in bounds, aligned for its type given the alignment class "
+        text="Theorems C07_no_fault (with C05), C07_whole_life_no_fault, C07_whole_life_uninit_no_fault and C07_life_from_history_no_fault (a whole life across variants, with uninit conversion forms, from a request history): every access the generated operations make is in bounds, aligned for its type given the alignment class "
              "of the buffer (A for record structs, 1 for local buffers), touches a droppable value only where one of that type is owned, never stores onto "
              "an owned droppable value, stores through a unique pointer by non-alignment-requiring means. C07_current ties those runtime facts to data.rs; "
              "C07_refuted_unfixed keeps the pre-fix faults. E3 checks the address of every record and every field reference at stack/Box/Vec placements and "
